@@ -12,6 +12,7 @@
 #include "hep/mc/multi_channel_map.hpp"
 
 #include <cstddef>
+#include <limits>
 #include <sstream>
 #include <vector>
 
@@ -28,6 +29,7 @@ struct PwcFamily
     int jac_mode = 0;            // 0: c = 1; 1: c = 1 + x_0; 2: c = 2
     bool dens_early = false;     // densities already written in the calculate_coordinates call
     bool fill_disabled = false;  // write a finite value into the slots of disabled channels
+    bool coord_returns_zero = false; // the value returned by the calculate_coordinates call is documented as ignored
 
     T edge(std::size_t d, std::size_t b) const { return t[d * (cells + 1) + b]; }
     unsigned mass(std::size_t i, std::size_t d, std::size_t b) const { return k[(i * dims + d) * cells + b]; }
@@ -91,7 +93,7 @@ struct PwcFamily
     {
         std::ostringstream o;
         o << "pwc{dims=" << dims << ",ch=" << channels << ",cells=" << cells << ",K=" << K << ",mapdims=" << map_dims
-          << ",jac=" << jac_mode << (dens_early ? ",early" : ",late") << (fill_disabled ? ",filldis" : "") << ",t=" << show(t) << ",k=[";
+          << ",jac=" << jac_mode << (dens_early ? ",early" : ",late") << (fill_disabled ? ",filldis" : "") << (coord_returns_zero ? ",coord0" : "") << ",t=" << show(t) << ",k=[";
         for (std::size_t j = 0; j != k.size(); ++j) { o << (j ? "," : "") << k[j]; }
         o << "]}";
         return o.str();
@@ -111,6 +113,7 @@ inline PwcFamily<T> gen_pwc(Tape& t, std::size_t max_dims, std::size_t channels,
     f.jac_mode = static_cast<int>(t.pick(3));
     f.dens_early = t.flag();
     f.fill_disabled = t.flag();
+    f.coord_returns_zero = t.pick(4) == 0;
     f.t.resize(f.dims * (f.cells + 1));
     for (std::size_t d = 0; d != f.dims; ++d)
     {
@@ -165,6 +168,7 @@ struct PwcMap
     PwcFamily<T> const* fam;
     std::vector<PwcEvent>* log; // may be null
     std::vector<T>* poison_jacobian; // may be null: if non-empty, value returned as jacobian for the next densities call
+    T poison_above = T(2);           // the jacobian is +infinity for points whose first coordinate exceeds this (2 = never)
 
     void write_densities(std::vector<T> const& x, std::vector<std::size_t> const& enabled, std::vector<T>& dens, T c) const
     {
@@ -187,17 +191,18 @@ struct PwcMap
             for (std::size_t d = fam->dims; d < coords.size(); ++d) { coords[d] = T(d); }
             T const c = fam->common_factor(x);
             if (fam->dens_early) { write_densities(x, enabled, dens, c); }
-            return c;
+            return fam->coord_returns_zero ? T(0) : c;
         }
         if (log) { log->push_back({PwcEvent::Densities, channel}); }
         std::vector<T> x(coords.begin(), coords.begin() + fam->dims);
         T const c = fam->common_factor(x);
         if (!fam->dens_early) { write_densities(x, enabled, dens, c); }
+        if (coords[0] > poison_above) { return std::numeric_limits<T>::infinity(); }
         if (poison_jacobian && !poison_jacobian->empty())
         {
             T const v = poison_jacobian->back();
             poison_jacobian->pop_back();
-            return v;
+            if (!(v == T(-1))) { return v; } // -1 stands for "this request is answered normally"
         }
         return c;
     }
